@@ -179,6 +179,74 @@ Section Generic.
   Proof. exact (multi_watch_exec_two_clients St cmd decode_cmd exec kind cmd_get stub_reply get_read_only). Qed.
 End Generic.
 
+(* ---- the EXECUTOR-level MULTI / EXEC / WATCH (CommandExecutor::execute with Command::Multi / Exec / ..;
+   Model/Conn.v Section ExecutorTx; generic in the executor's ordinary commands [exec_plain], in what WATCH
+   stores [read_key] and in the comparison [veqb]).  One client; while a transaction is open every command
+   except EXEC / DISCARD / MULTI / WATCH is queued. *)
+Section Executor.
+  Variable St : Type.
+  Variable cmd : Type.
+  Variable V : Type.
+  Variable exec_plain : St -> cmd -> St * resp.
+  Variable kind : cmd -> ckind.
+  Variable read_key : St -> list N -> V.
+  Variable veqb : V -> V -> bool.
+  Notation XSTEP := (x_step St cmd V exec_plain kind read_key veqb).
+  Notation XRUN := (x_run St cmd exec_plain kind).
+
+  (* no effect and no result until EXEC *)
+  Theorem C05_x_queued_no_effect : forall (x : xstate St cmd V) (c : cmd),
+    x_in _ _ _ x = true -> kind c <> KExec -> x_st _ _ _ (fst (XSTEP x c)) = x_st _ _ _ x.
+  Proof. exact (x_queued_no_effect St cmd V exec_plain kind read_key veqb). Qed.
+
+  Theorem C05_x_queued_reply : forall (x : xstate St cmd V) (c : cmd),
+    x_in _ _ _ x = true ->
+    kind c <> KExec -> kind c <> KDiscard -> kind c <> KMulti -> (forall ks, kind c <> KWatch ks) ->
+    XSTEP x c = (mkX _ _ _ (x_st _ _ _ x) true (x_queue _ _ _ x ++ [c]) (x_watched _ _ _ x), RSimple (str "QUEUED")).
+  Proof. exact (x_queued_reply St cmd V exec_plain kind read_key veqb). Qed.
+
+  (* EXEC: if the value under some watched key differs from a recorded snapshot, nil and nothing applied;
+     otherwise the queue is run consecutively from the present state, one result per queued command;
+     either way the transaction state is reset.  DISCARD applies nothing. *)
+  Theorem C05_x_exec_all_or_nothing : forall (x : xstate St cmd V) (c : cmd),
+    x_in _ _ _ x = true -> kind c = KExec ->
+    ((exists k old, In (k, old) (x_watched _ _ _ x) /\ veqb (read_key (x_st _ _ _ x) k) old = false) ->
+       XSTEP x c = (mkX _ _ _ (x_st _ _ _ x) false [] [], RNilBulk)) /\
+    ((forall k old, In (k, old) (x_watched _ _ _ x) -> veqb (read_key (x_st _ _ _ x) k) old = true) ->
+       XSTEP x c = (mkX _ _ _ (fst (XRUN (x_st _ _ _ x) (x_queue _ _ _ x))) false [] [],
+                    RArr (snd (XRUN (x_st _ _ _ x) (x_queue _ _ _ x)))) /\
+       length (snd (XRUN (x_st _ _ _ x) (x_queue _ _ _ x))) = length (x_queue _ _ _ x)).
+  Proof. exact (x_exec_nil_iff St cmd V exec_plain kind read_key veqb). Qed.
+
+  Theorem C05_x_discard : forall (x : xstate St cmd V) (c : cmd),
+    x_in _ _ _ x = true -> kind c = KDiscard ->
+    XSTEP x c = (mkX _ _ _ (x_st _ _ _ x) false [] [], RSimple (str "OK")).
+  Proof. exact (x_discard St cmd V exec_plain kind read_key veqb). Qed.
+
+  Theorem C05_x_run_consecutive : forall (q : list cmd) (s : St) (c : cmd),
+    XRUN s (q ++ [c]) =
+    (fst (x_exec1 St cmd exec_plain kind (fst (XRUN s q)) c),
+     snd (XRUN s q) ++ [snd (x_exec1 St cmd exec_plain kind (fst (XRUN s q)) c)]).
+  Proof. exact (x_run_snoc St cmd exec_plain kind). Qed.
+
+  (* The FIRST WATCH of a key decides: WATCH records a key that is not yet watched with its present value,
+     never replaces or drops an entry, and an entry survives every command except UNWATCH (outside a
+     transaction) and EXEC / DISCARD (inside one) - later WATCHes of the same key included. *)
+  Theorem C05_x_first_watch_decides :
+    (forall ks s w k, In k ks -> x_has V k w = false -> In (k, read_key s k) (x_watch St V read_key s w ks)) /\
+    (forall ks s w k v, In (k, v) w -> In (k, v) (x_watch St V read_key s w ks)) /\
+    (forall (x : xstate St cmd V) c k v,
+       (x_in _ _ _ x = false -> kind c <> KUnwatch) ->
+       (x_in _ _ _ x = true -> kind c <> KExec /\ kind c <> KDiscard) ->
+       In (k, v) (x_watched _ _ _ x) -> In (k, v) (x_watched _ _ _ (fst (XSTEP x c)))).
+  Proof.
+    split; [|split].
+    - exact (x_watch_fresh St V read_key).
+    - exact (x_watch_keeps St V read_key).
+    - exact (x_step_keeps_watch St cmd V exec_plain kind read_key veqb).
+  Qed.
+End Executor.
+
 (* Over a backend with values (the mini backend of the correspondence check): "the GET reply differs"
    is "the value differs" unless the key holds a non-string value at both instants.  So, outside that
    class (which includes every string <-> other-type change): EXEC returns nil and applies nothing
@@ -229,6 +297,12 @@ Print Assumptions C05_queue_time_error_marks.
 Print Assumptions C05_watch_iff_get_reply_changed.
 Print Assumptions C05_watch_multi_exec_two_clients.
 Print Assumptions C05_multi_watch_exec_two_clients.
+Print Assumptions C05_x_queued_no_effect.
+Print Assumptions C05_x_queued_reply.
+Print Assumptions C05_x_exec_all_or_nothing.
+Print Assumptions C05_x_discard.
+Print Assumptions C05_x_run_consecutive.
+Print Assumptions C05_x_first_watch_decides.
 Print Assumptions C05_watch_iff_changed_strings.
 Print Assumptions C05_watch_nonstring_refuted.
 Print Assumptions C05_mini_get_read_only.
@@ -262,3 +336,21 @@ Example C05_first_watch_decides :
   last (outa _ _ y3) R_OK = RArr [RSimple (str "OK")] /\ value_of (sst _ _ y3) (str "j") = Some (VStr (str "1")).
 Proof. exact first_watch_decides_c05. Qed.
 Print Assumptions C05_first_watch_decides.
+
+(* Executor level over the mini backend: WATCH k | LPUSH k b (a list modified in place) | MULTI SET j 1 EXEC
+   -> nil (stored values of every type are compared); WATCH k | SET k b | WATCH k | MULTI SET j 1 EXEC ->
+   nil (the first snapshot decides); an empty transaction after a failed watch -> nil. *)
+Example C05_x_nonvacuous :
+  let run (l : list (list string)) :=
+    fold_left (fun p c => let '(x, _) := p in
+                          match mdecode (frame (map str c)) with
+                          | inl cm => mx_step x cm
+                          | inr _ => p
+                          end) l (x_init _ _ _ m0, R_OK) in
+  snd (run [["LPUSH"; "k"; "a"]; ["WATCH"; "k"]; ["LPUSH"; "k"; "b"]; ["MULTI"]; ["SET"; "j"; "1"]; ["EXEC"]]) = RNilBulk /\
+  snd (run [["SET"; "k"; "a"]; ["WATCH"; "k"]; ["SET"; "k"; "b"]; ["WATCH"; "k"]; ["MULTI"]; ["SET"; "j"; "1"]; ["EXEC"]]) = RNilBulk /\
+  snd (run [["SET"; "k"; "a"]; ["WATCH"; "k"]; ["SET"; "k"; "b"]; ["MULTI"]; ["EXEC"]]) = RNilBulk /\
+  snd (run [["SET"; "k"; "a"]; ["WATCH"; "k"]; ["GET"; "k"]; ["MULTI"]; ["INCR"; "k"]; ["SET"; "j"; "1"]; ["EXEC"]])
+    = RArr [RError (str "ERR value is not an integer or out of range"); RSimple (str "OK")].
+Proof. exact x_nonvacuous_c05. Qed.
+Print Assumptions C05_x_nonvacuous.
